@@ -10,8 +10,8 @@
 (***************************************************************************)
 EXTENDS Integers, Sequences, FiniteSets, TLC, Json, IOUtils
 Rec == ndJsonDeserialize(IOEnv.TRACE)
-VARIABLES l, nsent, subs, cut, bad
-vars == <<l, nsent, subs, cut, bad>>
+VARIABLES l, nsent, subs, cut, calm, bad
+vars == <<l, nsent, subs, cut, calm, bad>>
 Ev == Rec[l]
 Has(f) == f \in DOMAIN Ev
 Checked(p) == IOEnv.CHECK = "ALL" \/ p = IOEnv.CHECK \/ p = "TOOL"
@@ -21,15 +21,15 @@ Put(f, k, v) == IF k \in DOMAIN f THEN [f EXCEPT ![k] = v] ELSE f @@ (k :> v)
 
 \* subs[s] = [last: last value received (or the value current when subscribing), lag: lag marker since then,
 \*            fast, remote, open]
-Init == l = 1 /\ nsent = 0 /\ subs = <<>> /\ cut = FALSE /\ bad = <<>>
-Reset == /\ Is("reset") /\ nsent' = 0 /\ subs' = <<>> /\ cut' = FALSE /\ bad' = bad
+Init == l = 1 /\ nsent = 0 /\ subs = <<>> /\ cut = FALSE /\ calm = FALSE /\ bad = <<>>
+Reset == /\ Is("reset") /\ nsent' = 0 /\ subs' = <<>> /\ cut' = FALSE /\ calm' = FALSE /\ bad' = bad
 Sub == /\ Is("bc_sub") /\ subs' = Put(subs, Ev.sub, [last |-> Ev.after, lag |-> FALSE, fast |-> Ev.fast, remote |-> Ev.remote, open |-> TRUE])
-       /\ UNCHANGED <<nsent, cut, bad>>
+       /\ UNCHANGED <<nsent, cut, calm, bad>>
 Send == /\ Is("bc_send") /\ nsent' = Ev.v
         /\ bad' = IF Ev.v # nsent + 1 THEN Flag("TOOL", "harness sent values out of order")
                   ELSE IF Ev.n < 0 /\ \E s \in DOMAIN subs : subs[s].open /\ ~(cut /\ subs[s].remote) THEN Flag("C16", "send failed although subscribers exist")
                   ELSE bad
-        /\ UNCHANGED <<subs, cut>>
+        /\ UNCHANGED <<subs, cut, calm>>
 Recv == /\ Is("bc_recv")
         /\ LET s == subs[Ev.sub] IN
            CASE Ev.r = "val" ->
@@ -45,19 +45,31 @@ Recv == /\ Is("bc_recv")
              [] Ev.r = "closed" ->
                    /\ subs' = Put(subs, Ev.sub, [s EXCEPT !.open = FALSE])
                    /\ bad' = IF s.last # nsent /\ ~s.lag /\ ~(cut /\ s.remote) THEN Flag("C16", "stream ended with values missing and no lag error")
+                             ELSE IF calm /\ s.last # nsent /\ ~(cut /\ s.remote) THEN Flag("C16", "a subscriber that had lagged was never re-admitted: values sent while it had room were not delivered")
                              ELSE bad
              [] OTHER ->
                    /\ subs' = Put(subs, Ev.sub, [s EXCEPT !.open = FALSE])
                    /\ bad' = IF ~(cut /\ s.remote) THEN Flag("C16", "subscriber failed on a healthy connection") ELSE bad
-        /\ UNCHANGED <<nsent, cut>>
-Unsub == /\ Is("bc_unsub") /\ subs' = Put(subs, Ev.sub, [subs[Ev.sub] EXCEPT !.open = FALSE]) /\ UNCHANGED <<nsent, cut, bad>>
-Fault == /\ Is("fault") /\ cut' = TRUE /\ UNCHANGED <<nsent, subs, bad>>
+        /\ UNCHANGED <<nsent, cut, calm>>
+Unsub == /\ Is("bc_unsub") /\ subs' = Put(subs, Ev.sub, [subs[Ev.sub] EXCEPT !.open = FALSE]) /\ UNCHANGED <<nsent, cut, calm, bad>>
+Fault == /\ Is("fault") /\ cut' = TRUE /\ UNCHANGED <<nsent, subs, calm, bad>>
+\* from here on values are sent with long gaps: every subscriber has room, nobody can lag
+Calm == /\ Is("bc_calm") /\ calm' = TRUE /\ UNCHANGED <<nsent, subs, cut, bad>>
 End == /\ Is("bc_end")
        /\ bad' = IF Ev.pending > 0 THEN Flag("C16", "subscribers still waiting after the sender was dropped") ELSE bad
-       /\ UNCHANGED <<nsent, subs, cut>>
-Known == {"reset", "bc_sub", "bc_send", "bc_recv", "bc_unsub", "fault", "bc_end"}
-Skip == /\ l <= Len(Rec) /\ Ev.ev \notin Known /\ l' = l + 1 /\ UNCHANGED <<nsent, subs, cut, bad>>
-Next == Reset \/ Sub \/ Send \/ Recv \/ Unsub \/ Fault \/ End \/ Skip
+       /\ UNCHANGED <<nsent, subs, cut, calm>>
+\* two sender clones used from two threads at the same time: both values reach every subscriber (which has room)
+BtSend == /\ Is("bt_send")
+          /\ bad' = IF ~Ev.ok THEN Flag("C16", "a send on one sender clone failed (no subscribers) while another clone was sending") ELSE bad
+          /\ UNCHANGED <<nsent, subs, cut, calm>>
+BtSub == /\ Is("bt_sub")
+         /\ bad' = IF Ev.got # <<1000, 2000>> /\ ~Ev.lagged THEN Flag("C16", "a value broadcast while another sender clone was sending did not reach a subscriber that had room, and no lag was reported")
+                   ELSE IF Ev.lagged THEN Flag("C16", "a subscriber with free buffer space was reported as lagging")
+                   ELSE bad
+         /\ UNCHANGED <<nsent, subs, cut, calm>>
+Known == {"bt_send", "bt_sub", "bc_calm", "reset", "bc_sub", "bc_send", "bc_recv", "bc_unsub", "fault", "bc_end"}
+Skip == /\ l <= Len(Rec) /\ Ev.ev \notin Known /\ l' = l + 1 /\ UNCHANGED <<nsent, subs, cut, calm, bad>>
+Next == BtSend \/ BtSub \/ Calm \/ Reset \/ Sub \/ Send \/ Recv \/ Unsub \/ Fault \/ End \/ Skip
 Spec == Init /\ [][Next]_vars
 Inv_C16 == bad = <<>> \/ bad[1] # "C16"
 Inv_TOOL == bad = <<>> \/ bad[1] # "TOOL"
